@@ -162,9 +162,15 @@ pub fn corpus(rg: &mut Rg, per_class: usize) -> Vec<EnumSpec> {
             if ds.contains(&"EnumProperty") {
                 c.allow_default = false;
             }
+            // every fourth EnumString program goes through the phf map (configs B and C only; see emit)
+            let phf = *ds == ["EnumString"] && k % 4 == 0;
+            if phf {
+                c.allow_fields = false;
+                c.allow_generics = false;
+                c.min_variants = 2;
+            }
             let mut s = if si == 6 || si == 7 { gen::gen_meta(rg, &c, si == 7) } else { gen::gen_string(rg, &c) };
-            // phf twin for field-less non-default EnumString enums (configs B and C only; see emit)
-            if *ds == ["EnumString"] && k % 4 == 0 && s.variants.iter().all(|v| v.kind == Kind::Unit) && !s.has_generics() {
+            if phf {
                 s.groups.push(vec![EAttr::UsePhf]);
             }
             specs.push(s);
